@@ -173,7 +173,8 @@ def strategy():
     from hypothesis import strategies as st
 
     size = st.one_of(st.integers(1, 4096), st.sampled_from([64, 128, 65, 63, 1, 4096, 127, 129, 192]), st.integers(1, 130), st.integers(1, 2**22),
-                     st.sampled_from([2**20, 2**20 + 1, 4 * 1024 * 1024, 4 * 1024 * 1024 - 63]))
+                     st.sampled_from([2**20, 2**20 + 1, 4 * 1024 * 1024, 4 * 1024 * 1024 - 63]),
+                     st.integers(2**24, 2**33), st.sampled_from([2**24 + 1, 2**25 + 65, 2**26 + 4, 67141636, 2**31 - 1, 2**31 + 1, 2**32 + 63]))
     return st.fixed_dictionaries({
         "sizes": st.one_of(st.lists(size, min_size=1, max_size=12), st.lists(size, min_size=1, max_size=40), st.lists(st.sampled_from([64, 100, 128]), min_size=2, max_size=16)),
         "m": st.one_of(st.integers(1, 16), st.sampled_from([2, 3, 4, 8])),
